@@ -5,6 +5,7 @@ import os, sys
 sys.path.insert(0, os.path.dirname(os.path.abspath(__file__)))
 import regen, skeleton
 errs = regen.regen(list(regen.UNITS) + list(regen.UNITS2)) + list(skeleton.regen_skeleton(['ringbuf', 'messageq', 'fibre']))
+regen.write_signatures()
 for e in errs:
     print('ERROR', e)
 sys.exit(1 if errs else 0)
